@@ -784,6 +784,23 @@ class Class(Node):
             else:
                 self.classes[class_name] = other.classes[class_name]
 
+        # One of the two may be the empty placeholder package that a "within" clause
+        # creates.  Everything but the nested classes then comes from the real definition,
+        # whichever of the two is merged first.
+        for attr in (
+            "imports",
+            "extends",
+            "symbols",
+            "functions",
+            "equations",
+            "initial_equations",
+            "statements",
+            "initial_statements",
+            "comment",
+        ):
+            if not getattr(self, attr) and getattr(other, attr):
+                setattr(self, attr, getattr(other, attr))
+
     @property
     def root(self):
         if self.parent is None:
